@@ -151,6 +151,7 @@ type noncePanic struct {
 }
 
 type env struct {
+	sampled     map[string]bool
 	noncePanics []noncePanic
 	c           *xs.Ctx
 	r           *xs.Result
@@ -162,7 +163,7 @@ type env struct {
 }
 
 func newEnv(c *xs.Ctx, r *xs.Result) *env {
-	return &env{c: c, r: r, dir: c.TempDir(), ents: entropyCases(), pws: passwordCases(), files: map[[2]int]*refFile{}}
+	return &env{sampled: map[string]bool{}, c: c, r: r, dir: c.TempDir(), ents: entropyCases(), pws: passwordCases(), files: map[[2]int]*refFile{}}
 }
 
 func (e *env) tmp() string {
@@ -457,7 +458,10 @@ func (e *env) runPath(cs Case) {
 			return
 		}
 		r.Count("path_valid_ok", 1)
-		r.Add("valid_paths", cs.Path)
+		if r.Add("valid_paths", cs.Path) && e.c.Shard == 0 && !e.sampled["path"] {
+			e.sampled["path"] = true
+			r.Sample(map[string]interface{}{"path": cs.Path, "address": kp.Address.String(), "public_key": hex.EncodeToString(kp.Public)})
+		}
 	}
 }
 
@@ -685,6 +689,10 @@ func (e *env) classifyTamper(cs Case, kf *wallet.KeyFile, o decOut, desc, keyTai
 	default:
 		r.Count("tamper_rejected", 1)
 		r.Count("tamper_rejected_"+cs.Kind, 1)
+		if e.c.Shard == 0 && !e.sampled[cs.Kind] {
+			e.sampled[cs.Kind] = true
+			r.Sample(map[string]interface{}{"case": cs, "file": file, "tampering": desc, "decrypt_error": o.err.Error()})
+		}
 		r.Add("tamper_rejected_inputs", short(bytes.Join([][]byte{kf.Crypto.CipherData, kf.Crypto.AesNonce, kf.Crypto.Argon2Params.Salt, {byte(cs.E), byte(cs.P)}}, []byte{0xff, 0x00})))
 	}
 }
@@ -828,8 +836,8 @@ func boundsFor(thorough bool) bounds {
 	if !thorough {
 		return bounds{
 			pathLen:   6,
-			flipFiles: [][2]int{{0, 0}, {8, 2}, {13, 3}}, // zeros16/empty, pattern24/unicode, ones32/1KiB
-			fileFlips: [][2]int{{8, 2}},
+			flipFiles: [][2]int{{0, 0}, {13, 3}}, // zeros16/empty, ones32/1KiB
+			fileFlips: [][2]int{{8, 2}},          // pattern24/unicode
 		}
 	}
 	b := bounds{pathLen: 7}
@@ -950,9 +958,6 @@ func runC19(c *xs.Ctx, r *xs.Result) {
 	if c.Shard == 0 {
 		r.Count("items_total", int64(item))
 	}
-	for _, v := range r.Violations {
-		r.Sample(map[string]string{"violation": v.Key})
-	}
 	if c.Shard == 0 {
 		f := e.file(0, 0)
 		r.Sample(map[string]interface{}{"example_file": "zeros16:empty", "salt": hx(f.Salt), "nonce": hx(f.Nonce), "cipherData": hx(f.Cipher), "baseAddress": f.Base.String()})
@@ -981,7 +986,7 @@ func init() {
 			"keyStoreFromEntropy is unexported and nothing in the repository exports a KeyStore constructor: reached through the overlay file wallet/export_verif_c19.go (wrapper only)",
 			"path \"m\" alone (valid SLIP-0010, refused by the wallet) is counted but not judged: the statement demands neither",
 		},
-		Rule: "accept <=> reference: Decrypt(file,pw) returns exactly the entropy iff (cipherData,nonce,salt,pw) are those the file was created with, otherwise an error (a panic is a violation); DeriveForPath(p) == reference SLIP-0010 ed25519 key/address iff p is 'm' followed by >=1 \"/<n>'\" with n < 2^31, otherwise an error; signatures verify only for the exact (public key, message, signature)",
+		Rule: "cases are enumerated, never sampled: every (entropy, password) round trip with every wrong password of the list; every single-bit flip of cipherData, nonce, salt and of the file's bytes plus the listed length edits on deterministic key files; every string of <= L tokens over a 9-token path alphabet plus a fixed list; every (entropy, index) derivation with every single-bit flip of signature and public key. Oracle (accept <=> reference): Decrypt returns exactly the entropy iff (cipherData, nonce, salt, password) are those the file was created with, otherwise an error (a panic is a violation); DeriveForPath(p) equals the reference SLIP-0010 ed25519 key/address iff p is 'm' followed by >= 1 \"/<n>'\" with n < 2^31, otherwise an error; signatures verify only for the exact (public key, message, signature). distinct_nontrivial = distinct tampered files that parsed, reached Decrypt and were rejected there (by digest of the three fields) + distinct accepted hardened paths + distinct completed round trips + distinct derived addresses + distinct rejected (password, wrong password) pairs; inputs refused before Decrypt (unparsable file, malformed path) are trivial and not counted",
 		Run:  runC19,
 		Finish: func(tier string, m *xs.Result, ev *xs.Evidence) {
 			cnt := m.Counters
